@@ -63,6 +63,8 @@ def check(ctx) -> None:
     ctx.rule("C12.must-use", "MUST-USE: the boolean result of an operation that reports 'something changed' is never discarded in the variation operators", floor=8)
     ctx.rule("C12.clone-fresh", "ABSINT: ComputationCache.clone returns a cache that shares no list / dict with the original (for empty and non-empty containers) and holds equal contents", floor=2)
     _clone_fresh(ctx, repo)
+    ctx.rule("C12.laws", "ABSINT: for every sequence of registrations, queries and chromosome changes (depth 3 quick / 4 thorough after the first registration) each ComputationCache getter returns what the registered functions compute on the current state", floor=250)
+    _cache_laws(ctx, repo, 4 if ctx.tier == "thorough" else 3)
     ctx.rule("C12.clearers", "WHO-MAY: `<x>.changed = False` occurs only in the enumerated functions", floor=3)
 
     # ------------------------------------------------------------------ C12.invalidate
@@ -385,3 +387,112 @@ def _clone_fresh(ctx, repo) -> None:
         ctx.check("C12.clone-fresh", fn, not shared and not differs and own,
                   f"{tag}: the clone shares {shared} with the original (contents differ: {differs}; bound to the new chromosome: {own}): a value cached for one chromosome is returned for its relative after that one changed",
                   what=f"{tag}: own copies of every container, equal contents", stmt=tag)
+
+
+def _cache_laws(ctx, repo, depth: int) -> None:
+    """Every getter of ComputationCache returns what the registered functions compute on the chromosome's current
+    state, for every sequence of registrations, queries and changes up to `depth` (after the first registration)."""
+    import itertools
+    import statistics
+
+    from sa.engine import peval
+
+    cls = repo.cls(CC, "ComputationCache")
+    meths = repo.methods(cls)
+    for m in ("get_fitness", "get_fitness_for", "get_is_covered", "get_coverage", "get_coverage_for", "_check_cache", "add_fitness_function", "add_coverage_function"):
+        if m not in meths:
+            raise AnalysisError(f"anchor vanished: ComputationCache.{m}")
+        ctx.analysed(meths[m])
+    cmod = repo.module(CC)
+    cres = peval.repo_class_resolver(repo, only={"ComputationCache"})
+    FT = {0: [2.0, 0.0, 1.0, 4.0, 0.0, 7.0], 1: [3.0, 5.0, 0.0, 0.0, 6.0, 1.0]}
+    CT = {0: [0.5, 1.0, 0.25, 0.0, 0.75, 0.5], 1: [0.0, 0.5, 1.0, 0.25, 0.5, 1.0]}
+    ALPHA = ["addf1", "addc0", "addc1", "mutate", "fit", "fitfor0", "fitfor1", "iscov0", "iscov1", "cov", "covfor0", "covfor1"]
+    n_seq = n_obs = 0
+    reported = set()
+    for k in range(1, depth + 1):
+        for seq in itertools.product(ALPHA, repeat=k):
+            if seq[-1] in ("addf1", "addc0", "addc1", "mutate"):
+                continue  # ends without an observation
+            if sum(o == "addf1" for o in seq) > 1 or sum(o == "addc0" for o in seq) > 1 or sum(o == "addc1" for o in seq) > 1:
+                continue
+            it = peval.Interp(resolver=peval.repo_resolver(repo), class_resolver=cres, max_steps=50000)
+            chrom = peval.Obj("chromosome", fields={"changed": True, "version": 0})
+
+            def mk_f(i):
+                o = peval.Obj(f"fitness{i}")
+                o.methods["compute_fitness"] = lambda ch, i=i: FT[i][ch.fields["version"]]
+                o.methods["compute_is_covered"] = lambda ch, i=i: FT[i][ch.fields["version"]] == 0.0
+                o.methods["is_maximisation_function"] = lambda: False
+                return o
+
+            def mk_c(j):
+                o = peval.Obj(f"coverage{j}")
+                o.methods["compute_coverage"] = lambda ch, j=j: CT[j][ch.fields["version"]]
+                return o
+
+            fs = {0: mk_f(0), 1: mk_f(1)}
+            cs = {0: mk_c(0), 1: mk_c(1)}
+            regf: list[int] = [0]
+            regc: list[int] = []
+            tag = "[laws] addf0 " + " ".join(seq)
+            try:
+                cache = it.instantiate("ComputationCache", cres("ComputationCache", cmod), [chrom], {})
+                cache.methods["add_fitness_function"](fs[0])
+                valid = True
+                for pos, op in enumerate(seq):
+                    ver = chrom.fields["version"]
+                    want = got = None
+                    if op == "addf1":
+                        cache.methods["add_fitness_function"](fs[1]); regf.append(1)
+                    elif op.startswith("addc"):
+                        j = int(op[-1]); cache.methods["add_coverage_function"](cs[j]); regc.append(j)
+                    elif op == "mutate":
+                        chrom.fields["version"] = ver + 1
+                        chrom.fields["changed"] = True
+                    elif op == "fit":
+                        want = sum(FT[i][ver] for i in regf); got = cache.methods["get_fitness"]()
+                    elif op.startswith("fitfor"):
+                        i = int(op[-1])
+                        if i not in regf:
+                            valid = False; break
+                        want = FT[i][ver]; got = cache.methods["get_fitness_for"](fs[i])
+                    elif op.startswith("iscov"):
+                        i = int(op[-1])
+                        if i not in regf:
+                            valid = False; break
+                        want = FT[i][ver] == 0.0; got = cache.methods["get_is_covered"](fs[i])
+                    elif op == "cov":
+                        if not regc:
+                            valid = False; break
+                        want = statistics.mean(CT[j][ver] for j in regc); got = cache.methods["get_coverage"]()
+                    elif op.startswith("covfor"):
+                        j = int(op[-1])
+                        if j not in regc:
+                            valid = False; break
+                        want = CT[j][ver]; got = cache.methods["get_coverage_for"](cs[j])
+                    if want is not None or got is not None:
+                        n_obs += 1
+                        if got != want:
+                            key = (op, tuple(seq[: pos + 1]))
+                            short = "[laws] addf0 " + " ".join(seq[: pos + 1])
+                            if short not in reported and len(reported) < 3:
+                                reported.add(short)
+                                ctx.fail("C12.laws", meths["_check_cache"], f"{short}: the last query returns {got!r}, but the registered functions compute {want!r} on the chromosome's current state: a value cached before a registration or a change is served afterwards", stmt=short)
+                            elif short not in reported:
+                                reported.add(short)
+                            break
+                if valid:
+                    n_seq += 1
+                    if tag not in reported:
+                        ctx.ok("C12.laws", meths["_check_cache"], what=tag)
+            except peval.Undecided as exc:
+                ctx.undecide("C12.laws", meths["_check_cache"], f"{tag}: {exc}")
+                return
+            except peval.Raises as exc:
+                short = tag
+                if len(reported) < 3:
+                    ctx.fail("C12.laws", meths["_check_cache"], f"{tag}: raises {exc.name} ({exc.detail[:80]}) for registered functions", stmt=tag)
+                reported.add(short)
+    if not reported:
+        ctx.ok("C12.laws", meths["_check_cache"], what=f"{n_seq} operation sequences (depth {depth}), {n_obs} observations agree with the functions' values on the current state")
